@@ -8,7 +8,8 @@ import c10
 import vf
 
 ENTRIES = ["sigdb", "siglist", "sigdb.Unmarshal", "auth2", "auth2.Unmarshal", "wincert", "wincertguid", "loadopt", "devpath", "utf16", "efistr", "nullstr", "sigsupp",
-           "efivars", "key", "cert", "guid", "bootorder"]
+           "efivars", "key", "cert", "guid", "bootorder",
+           "sigdb@opaque", "auth2@opaque", "wincert@opaque", "wincertguid@opaque", "devpath@opaque", "sigsupp@opaque", "efivars@opaque"]
 
 
 def special_inputs():
@@ -68,7 +69,7 @@ def run(c):
     fz = []
     for e in ENTRIES:
         for sd in range(4):
-            for n in range(0, 1400 if e in ("sigdb", "auth2", "auth2.Unmarshal", "sigdb.Unmarshal", "siglist", "wincert", "wincertguid", "key", "cert") else 200, 1 if not c.quick or e in ("loadopt", "devpath", "utf16", "efistr") else 5):
+            for n in range(0, 1400 if e.split("@")[0] in ("sigdb", "auth2", "auth2.Unmarshal", "sigdb.Unmarshal", "siglist", "wincert", "wincertguid", "key", "cert") else 200, 1 if not c.quick or e in ("loadopt", "devpath", "utf16", "efistr") else 5):
                 fz.append({"sc": len(fz), "entry": e, "mode": "prefix", "seed": sd, "n": n})
         for n in range(250 if c.quick else 5000):
             fz.append({"sc": len(fz), "entry": e, "mode": "mutate", "n": n})
